@@ -237,6 +237,10 @@ class Contract:
     def opaque_attr(self, eng, path, obj, name):
         return None
 
+    def str_attr(self, eng, path, obj, name):
+        """attribute of a value modelled as a string (a pathlib.Path by its string form): a value, or None"""
+        return None
+
     def opaque_contains(self, eng, path, container, item, e):
         """`item in <opaque>`: a z3 Bool, or None when the contract gives no meaning to it"""
         return None
